@@ -24,6 +24,7 @@ ColVs  == StrCol(V, 8, TRUE, TRUE, <<>>)                \* nullable string key
 ColW   == MkCol(W, "i32", 0, TRUE, FALSE, FALSE, <<0, 9>>, <<>>, <<>>, <<>>)
 TabT   == <<ColK, ColV>>                                 \* T(K key, V)
 TabU   == <<ColV, ColK>>                                 \* U(V, K key): key is not the first column
+TabR   == <<ColK, MkCol(V, "s", 8, TRUE, FALSE, FALSE, <<0, 9>>, <<>>, <<>>, <<>>)>>   \* a string column with a range
 TabC   == <<ColK, ColVs, ColW>>                          \* composite key (K, V) with a nullable string part
 
 Absent == [absent |-> 0]
@@ -110,6 +111,7 @@ Alphabet ==
          \cup {E("SetSummary", [field |-> "author", value |-> v]) : v \in {StrV(<<120, 233>>), Absent}}
          \cup {E("WriteStream", [name |-> <<115>>, data |-> d]) : d \in {"b01", "b0202"}}
          \cup {E("RemoveStream", [name |-> <<115>>])}
+         \cup {E("AddSignature", [x |-> 0])}        \* a signing tool signs the closed file: reading and closing it keeps the signature (C16)
          \cup Closes
     [] Cfg = "streams" ->       \* C11 (quick): adversarial names, interleaved with a table operation, reopen, signature
          {E("WriteStream", [name |-> n, data |-> "b01"]) : n \in StreamNamesQ}
@@ -136,6 +138,9 @@ Alphabet ==
           Upd(T, <<<<V, sb>>, <<K, IntV(5)>>>>, True),     \* refused when it would make two keys equal, after touching strings
           E("Flush", [x |-> 0]), E("IntoInner", [x |-> 0]), E("Reopen", [x |-> 0])}
          \cup Rejects(T, TabT)
+         \* a STRING column that declares an integer range: an in-range integer is still not a string (the value
+         \* check and the cell writer must agree before anything is written), with a row already stored
+         \cup {Cre(U, TabR), Ins(U, <<<<IntV(1), sb>>>>), Ins(U, <<<<IntV(2), IntV(5)>>>>), Upd(U, <<<<V, IntV(5)>>>>, True)}
     [] Cfg = "catalog" ->       \* C06: several tables in one catalog whose names are related: "P"."Q.R" against "P.Q"."R"
                                 \* (the same dotted path), a table named like another table's column, a prefix pair
          {Cre(<<80>>, <<ColK, MkCol(<<81, 46, 82>>, "s", 8, TRUE, FALSE, TRUE, <<>>, <<>>, C_Identifier, <<>>)>>),
